@@ -14,7 +14,9 @@ import (
 	"github.com/bufbuild/protocompile/parser"
 	"github.com/bufbuild/protocompile/reporter"
 	"github.com/pentops/j5/lib/verifshim/tool"
+	"google.golang.org/protobuf/reflect/protodesc"
 	"google.golang.org/protobuf/reflect/protoreflect"
+	"google.golang.org/protobuf/reflect/protoregistry"
 	"google.golang.org/protobuf/types/descriptorpb"
 	"verifharness/vh"
 )
@@ -554,4 +556,40 @@ func fileCase(fd protoreflect.FileDescriptor, txt1 string, fd2 protoreflect.File
 		return "", 0, "second print differs (reported by the oracle)", nil
 	}
 	return fmt.Sprintf("CFile %s %s %s\n %s\n %s %s %s %v", impTerm(fd), d1, e1, bt(txt1), t1, d2, e2, lost), n1 + len(txt1)/4, "", nil
+}
+
+// strippedDescriptor rebuilds fd without its source code info: no element and no option has a source location, there
+// are no comments. That is the input class of the byte-level model (model/ProtoPrintBytes.v): the printer's blank-line
+// rule of printElements and the inline / block decision of parseOption read nothing but the descriptor then.
+func strippedDescriptor(fd protoreflect.FileDescriptor) (out protoreflect.FileDescriptor, err error) {
+	defer func() {
+		if p := recover(); p != nil {
+			err = fmt.Errorf("panic: %v", p)
+		}
+	}()
+	reg := &protoregistry.Files{}
+	var add func(f protoreflect.FileDescriptor) error
+	add = func(f protoreflect.FileDescriptor) error {
+		if _, e := reg.FindFileByPath(f.Path()); e == nil {
+			return nil
+		}
+		for i := 0; i < f.Imports().Len(); i++ {
+			if d := f.Imports().Get(i).FileDescriptor; d != nil && !d.IsPlaceholder() {
+				if e := add(d); e != nil {
+					return e
+				}
+			}
+		}
+		return reg.RegisterFile(f)
+	}
+	for i := 0; i < fd.Imports().Len(); i++ {
+		if d := fd.Imports().Get(i).FileDescriptor; d != nil && !d.IsPlaceholder() {
+			if e := add(d); e != nil {
+				return nil, e
+			}
+		}
+	}
+	fdp := protodesc.ToFileDescriptorProto(fd)
+	fdp.SourceCodeInfo = nil
+	return protodesc.NewFile(fdp, reg)
 }
